@@ -127,7 +127,7 @@ func (e *TCGPCClientPCREvent) Unmarshal(r io.Reader) error {
 	if err := littleRead(r, "EventType", &e.EventType); err != nil {
 		return err
 	}
-	if i, err := r.Read(e.SHA1Digest[:]); err != nil || i != 20 {
+	if i, err := io.ReadFull(r, e.SHA1Digest[:]); err != nil {
 		return fmt.Errorf("failed to read SHA1Digest (read %d bytes): %w", i, err)
 	}
 	if err := littleRead(r, "EventData", &e.EventData); err != nil {
